@@ -32,6 +32,8 @@ func checkC19(p *Program, r *Result) {
 	scope := rosScope(p, pkgRos1msg, "ParseMessageDefinition")
 	fns := sortedFuncs(scope)
 	checkNoAbort(p, r, "C19.e", fns)
+	r.rule("C19.m", "a memo is keyed by everything its values depend on", 1)
+	checkMemoKeys(p, r, "C19.m", fns)
 
 	// ---- C19.a
 	inCycle := recursiveFuncs(p, scope)
